@@ -20,6 +20,10 @@ HERE = os.path.dirname(os.path.dirname(os.path.abspath(__file__)))
 class _Mut(ast.NodeTransformer):
     """Apply the k-th applicable edit of one operator inside target functions."""
 
+    # name -> positional parameter names (without self) of the functions and
+    # methods defined in the file, when the name is unique there
+    signatures = {}
+
     def __init__(self, op, k, targets):
         self.op, self.k, self.targets = op, k, targets
         self.count = 0
@@ -122,6 +126,33 @@ class _Mut(ast.NodeTransformer):
             new = copy.copy(node)
             new.keywords = list(node.keywords[:-1])
             return new
+        # positional <-> keyword arguments in calls of functions of the same file
+        cname = None
+        if isinstance(node.func, ast.Name):
+            cname = node.func.id
+        elif isinstance(node.func, ast.Attribute) and \
+                isinstance(node.func.value, ast.Name) and node.func.value.id == 'self':
+            cname = node.func.attr
+        sig = self.signatures.get(cname)
+        if sig is not None and not any(isinstance(a, ast.Starred) for a in node.args) \
+                and not any(k.arg is None for k in node.keywords):
+            if self.op == 'pos2kw' and 0 < len(node.args) <= len(sig) and self.hit():
+                self.applied = 'positional -> keyword %s at line %d' % (
+                    ast.unparse(node)[:40], node.lineno)
+                new = copy.copy(node)
+                new.args = []
+                new.keywords = [ast.keyword(sig[i], a) for i, a in
+                                enumerate(node.args)] + list(node.keywords)
+                return new
+            kws = [k.arg for k in node.keywords]
+            rest = sig[len(node.args):]
+            if self.op == 'kw2pos' and kws and kws == rest[:len(kws)] and self.hit():
+                self.applied = 'keyword -> positional %s at line %d' % (
+                    ast.unparse(node)[:40], node.lineno)
+                new = copy.copy(node)
+                new.args = list(node.args) + [k.value for k in node.keywords]
+                new.keywords = []
+                return new
         if self.op == 'npabs' and fn in ('np.abs', 'numpy.abs') and self.hit():
             self.applied = 'np.abs -> abs at line %d' % node.lineno
             new = copy.copy(node)
@@ -252,12 +283,26 @@ class _Rename(ast.NodeTransformer):
 
 MUTATING = ['arith', 'dropterm', 'cmp', 'truthy', 'swapargs', 'unwrap', 'unwrapmethod',
             'dropkw', 'const', 'index01', 'dropneg', 'negif', 'delstmt', 'augflip']
-BENIGN = ['commute', 'subasadd', 'flipcmp', 'swapif', 'hoist', 'npabs']
+BENIGN = ['commute', 'subasadd', 'flipcmp', 'swapif', 'hoist', 'npabs', 'pos2kw',
+          'kw2pos']
 
 
 def generate(src, targets, ops, limit_per_op=40):
     """yield (label, new_source) for each applicable single edit"""
     tree0 = ast.parse(src)
+    sigs, dup = {}, set()
+    for n in ast.walk(tree0):
+        if isinstance(n, ast.FunctionDef) and not n.args.vararg and not n.args.kwarg \
+                and not n.args.posonlyargs:
+            names = [a.arg for a in n.args.args]
+            if names and names[0] in ('self', 'cls'):
+                names = names[1:]
+            if n.name in sigs:
+                dup.add(n.name)
+            sigs[n.name] = names
+    for d in dup:
+        sigs.pop(d, None)
+    _Mut.signatures = sigs
     for op in ops:
         k = 0
         while k < limit_per_op:
